@@ -1211,7 +1211,7 @@ func checkLastSeenWritten(p *an.Prog, r *an.Run, d *types.Named, m *ssa.Function
 			}
 			root, _ := an.RootPath(v)
 			if sameObject(root, recAlloc) {
-				if storeIn.Parent() != o.In.Parent() || an.Dominates(storeIn, o.In) {
+				if storeIn.Parent() != o.In.Parent() || storeIn == o.In || an.Dominates(storeIn, o.In) {
 					persisted = true
 				}
 			}
